@@ -273,10 +273,20 @@ func scripts() []*script {
 			st.logf("CloseWithError again %s", classify(c.CloseWithError(43, "later")))
 			st.logf("Read %s", read1(cs))
 		}},
-		{name: "s06a2-senddatagram-after-local-close", body: func(st stack) {
+		{name: "s06a2-senddatagram-after-local-close", expectMismatch: true, body: func(st stack) {
+			// D2 in DEVIATIONS.md: quic-go's datagramQueue.Add does not look at the closed state while
+			// the send queue (32 frames) has room, so SendDatagram keeps returning nil after the close.
 			c, _ := st.connect()
 			_ = c.CloseWithError(42, "")
 			st.logf("SendDatagram %s", classify(c.SendDatagram([]byte("late"))))
+			n := 1
+			var err error
+			for ; n < 40; n++ {
+				if err = c.SendDatagram([]byte("late")); err != nil {
+					break
+				}
+			}
+			st.logf("first failing SendDatagram after close: call #%d %s", n+1, classify(err))
 		}},
 		{name: "s06b-closewitherror-remote-classes", body: func(st stack) {
 			c, s := st.connect()
@@ -291,7 +301,8 @@ func scripts() []*script {
 			st.logf("CloseWithError on closed conn %s", classify(s.CloseWithError(1, "")))
 			st.logf("Read %s", read1(ss))
 		}},
-		{name: "s06b2-senddatagram-after-remote-close", body: func(st stack) {
+		{name: "s06b2-senddatagram-after-remote-close", expectMismatch: true, body: func(st stack) {
+			// D2 in DEVIATIONS.md (same mechanism on the side that received the close)
 			c, s := st.connect()
 			_ = c.CloseWithError(42, "")
 			st.logf("AcceptStream %s", acceptClass(s))
@@ -449,6 +460,12 @@ func scripts() []*script {
 			st.settle()
 			st.logf("Transport.Close %s", classify(st.closeTransport(-1)))
 			join()
+			// quic-go: Accept fails with the transport-closed error, vquic with ErrServerClosed.
+			// hysteria cannot observe the difference: serverImpl.Close always closes the listener
+			// first (s09c), and Serve() just returns whatever Accept returned. Normalised.
+			if acc == "ServerClosed" || acc == "TransportClosed" {
+				acc = "accept-failed"
+			}
 			st.logf("pending Accept %s", acc)
 		}},
 		{name: "s10-data-before-close-delivered", body: func(st stack) {
@@ -481,7 +498,9 @@ func scripts() []*script {
 			st.logf("peer read %s end=%s", show(d), end)
 			st.logf("peer late write: %s", writeUntilFail(st, cs, []byte("late")))
 		}},
-		{name: "s11b-qstream-close-on-both-ends", body: func(st stack) {
+		{name: "s11b-qstream-close-on-both-ends", expectMismatch: true, body: func(st stack) {
+			// D3 in DEVIATIONS.md: after the peer's STOP_SENDING the real SendStream.Close reports
+			// "close called for canceled stream"; the fake only does so after a LOCAL CancelWrite.
 			c, s := st.connect()
 			cs, ss := openPair(st, c, s)
 			st.logf("write %s", write1(ss, "resp"))
@@ -595,7 +614,9 @@ func scripts() []*script {
 			st.logf("client write %s", write1(cs, "\x44\x01abc"))
 			data, end := readAll(cs)
 			st.logf("client read %s end=%s", show(data), end)
-			hjoin()
+			if hjoin != nil {
+				hjoin()
+			}
 			rec.flush(st, "dispatcher: ")
 			_ = c.CloseWithError(h3NoError, "")
 			join()
@@ -949,7 +970,9 @@ func scripts() []*script {
 			join()
 			st.logf("write %s; read %s intact=%v end=%s", wcls, show(d), string(d) == string(p), end)
 		}},
-		{name: "s29-queued-datagram-after-local-close", body: func(st stack) {
+		{name: "s29-queued-datagram-after-local-close", expectMismatch: true, body: func(st stack) {
+			// D4 in DEVIATIONS.md: quic-go's datagramQueue.Receive hands out datagrams that were
+			// queued before the close; the fake fails ReceiveDatagram as soon as the conn is closed.
 			c, s := st.connect()
 			_ = c.SendDatagram([]byte("d1"))
 			_ = c.SendDatagram([]byte("d2"))
